@@ -4,6 +4,7 @@ import (
 	"fmt"
 	"go/token"
 	"go/types"
+	"strings"
 
 	"golang.org/x/tools/go/ssa"
 )
@@ -819,6 +820,183 @@ func init() {
 				}
 			}
 			c.Check(n >= 2, "growth-sites", c.P.Pos(fn.Pos()), fmt.Sprintf("%d growth site(s)", n), "fewer window-growth sites than reviewed")
+		}})
+
+	register(&Rule{ID: "C17.R15", Props: []string{"C17", "C01"}, Engine: "E3-path",
+		Title:   "the message policy's selection is always written as a pair: wherever messagePendingQueuePolicy.selected is set to a value that can be true, unorderedIsSelected is assigned on the same path (before it since entry, or after it before the function returns) — peek() reads the pair, and a stale unorderedIsSelected from an earlier unfragmented unordered message makes it serve the unordered queue in the middle of a fragmented ordered message (fragments no longer consecutive, the rest starved)",
+		MinInst: 1,
+		Run: func(c *RuleCtx) {
+			sel := c.field("messagePendingQueuePolicy", "selected")
+			uis := c.field("messagePendingQueuePolicy", "unorderedIsSelected")
+			isU := func(in ssa.Instruction) bool {
+				st, ok := in.(*ssa.Store)
+				return ok && fieldOfAddr(st.Addr) == uis
+			}
+			n := 0
+			ks := keyer{}
+			for _, a := range c.P.Writes(sel) {
+				if a.Kind != AccWrite || IsConstBool(false)(a.Val) {
+					continue
+				}
+				n++
+				after, _ := MustPass(a.Instr, isU, nil)
+				before, _ := MustPassOpt(a.Fn.Blocks[0], 0, nil, isU, PathOpts{Fail: func(in ssa.Instruction) bool { return in == a.Instr }, ExitOK: true})
+				c.Check(after || before, ks.key("selection-written-as-a-pair@"+c.P.FuncName(enclosingNamed(a.Fn))), c.Pos(a.Instr), "unorderedIsSelected is assigned on every path that sets selected", "selected can become true while unorderedIsSelected keeps whatever an earlier message left in it: peek() then serves the wrong queue in the middle of a fragmented message")
+			}
+			c.Check(n >= 1, "selection-sites", "", fmt.Sprintf("%d site(s)", n), "no site sets selected")
+		}})
+
+	register(&Rule{ID: "C19.R18", Props: []string{"C19"}, Engine: "E3",
+		Title:   "a timer's state is settled before its observer runs: in ackTimer.timeout and rtxTimer.timeout no store to the timer's state can follow the observer call (an expiry that marks the timer stopped only after the callback lets a start() issued during the callback be refused, or wipes out the timer that start() re-armed: the delayed acknowledgement then has no timer behind it)",
+		MinInst: 2,
+		Run: func(c *RuleCtx) {
+			n := 0
+			for _, w := range [][2]string{{"ackTimer.timeout", "ackTimer"}, {"rtxTimer.timeout", "rtxTimer"}} {
+				fn := c.Fn(w[0])
+				st := c.field(w[1], "state")
+				var obs []ssa.Instruction
+				for _, g := range c.P.Region(fn) {
+					forEachInstr(g, func(in ssa.Instruction) {
+						ci, ok := in.(ssa.CallInstruction)
+						if !ok || !ci.Common().IsInvoke() {
+							return
+						}
+						obs = append(obs, in)
+					})
+				}
+				if len(obs) == 0 {
+					c.Fail("observer-call@"+w[0], c.P.Pos(fn.Pos()), "no observer invocation found")
+					continue
+				}
+				n++
+				ok := true
+				where := ""
+				for _, g := range c.P.Region(fn) {
+					for _, a := range c.storesIn(g, st) {
+						for _, o := range obs {
+							if o.Parent() != g {
+								continue
+							}
+							// a deferred observer call runs at function exit: any state store is before it
+							if _, isDefer := o.(*ssa.Defer); isDefer {
+								continue
+							}
+							if CanReach(o, a.Instr) {
+								ok, where = false, c.Pos(a.Instr)
+							}
+						}
+					}
+				}
+				c.Check(ok, "state-settled-before-observer@"+w[0], c.P.Pos(fn.Pos()), "no state store after the observer call", "the timer's state is written after the observer callback ("+where+"): a start() or stop()+start() that happens during the callback is undone or refused")
+			}
+			c.Check(n >= 2, "timeout-callbacks", "", fmt.Sprintf("%d callback(s)", n), "timeout callbacks not found")
+		}})
+
+	register(&Rule{ID: "C18.R16", Props: []string{"C18"}, Engine: "E3-path",
+		Title:   "SetDeadline always goes through SetReadDeadline: every path through Stream.SetDeadline calls Stream.SetReadDeadline (only that call clears a deadline error left behind by an expired deadline; a shortcut for 'no timer armed' skips exactly the case where the deadline already fired)",
+		MinInst: 1,
+		Run: func(c *RuleCtx) {
+			fn := c.Fn("Stream.SetDeadline")
+			srd := c.Fn("Stream.SetReadDeadline")
+			ok, bad := MustPassFromBlock(fn.Blocks[0], func(in ssa.Instruction) bool {
+				ci, isCall := in.(ssa.CallInstruction)
+				return isCall && ci.Common().StaticCallee() == srd
+			}, PathOpts{})
+			where := ""
+			if bad != nil {
+				where = c.Pos(bad)
+			}
+			c.Check(ok, "set-deadline-delegates", c.P.Pos(fn.Pos()), "every path calls SetReadDeadline", "a path through SetDeadline skips SetReadDeadline (exit "+where+"): an expired deadline's error is never cleared and later reads fail at once instead of blocking")
+		}})
+
+	register(&Rule{ID: "C15.R11", Props: []string{"C15"}, Engine: "E3-path",
+		Title:   "every accepted write is counted: every path through Stream.packetize adds the payload length to bufferedAmount (the acknowledgement path and the failed-write roll-back subtract it unconditionally)",
+		MinInst: 1,
+		Run: func(c *RuleCtx) {
+			fn := c.Fn("Stream.packetize")
+			ba := c.field("Stream", "bufferedAmount")
+			ok, bad := MustPassFromBlock(fn.Blocks[0], func(in ssa.Instruction) bool {
+				st, isSt := in.(*ssa.Store)
+				return isSt && fieldOfAddr(st.Addr) == ba
+			}, PathOpts{})
+			where := ""
+			if bad != nil {
+				where = c.Pos(bad)
+			}
+			c.Check(ok, "write-always-counted", c.P.Pos(fn.Pos()), "every path stores bufferedAmount", "a path through packetize does not count the payload in bufferedAmount (exit "+where+"): the stream's figure is too small while the bytes are outstanding and underflows on a failed write")
+		}})
+
+	register(&Rule{ID: "C14.R15", Props: []string{"C14", "C07"}, Engine: "E3",
+		Title:   "a FORWARD-TSN's stream skips are applied before anything that depends on the new cumulative TSN runs: in handleForwardTSN / handleIForwardTSN no call of handlePeerLastTSNAndAcknowledgement can reach a per-stream skip (that call pops buffered TSNs and re-evaluates stored reset requests: run first, it can reset the stream before it has learnt what was skipped — EOF ahead of a deliverable message, and a phantom stream created by the late skip)",
+		MinInst: 2,
+		Run: func(c *RuleCtx) {
+			hp := c.Fn("Association.handlePeerLastTSNAndAcknowledgement")
+			n := 0
+			for _, hn := range []string{"Association.handleForwardTSN", "Association.handleIForwardTSN"} {
+				h := c.Fn(hn)
+				var skips []ssa.Instruction
+				forEachInstr(h, func(in ssa.Instruction) {
+					ci, ok := in.(ssa.CallInstruction)
+					if !ok {
+						return
+					}
+					if sc := ci.Common().StaticCallee(); sc != nil && strings.HasPrefix(c.P.FuncName(sc), "Stream.handleForwardTSNFor") {
+						skips = append(skips, in)
+					}
+				})
+				ok := true
+				for _, pc := range callsIn(h, hp) {
+					n++
+					for _, sk := range skips {
+						if CanReach(pc.(ssa.Instruction), sk) {
+							ok = false
+						}
+					}
+				}
+				c.Check(ok, "skips-before-acknowledgement@"+hn, c.P.Pos(h.Pos()), "the acknowledgement step cannot reach a per-stream skip", "handlePeerLastTSNAndAcknowledgement runs before the per-stream skips: a stored stream reset can be performed before the stream has been told what the FORWARD-TSN skipped")
+			}
+			c.Check(n >= 2, "acknowledgement-sites", "", fmt.Sprintf("%d site(s)", n), "acknowledgement calls not found in the forward-TSN handlers")
+		}})
+
+	register(&Rule{ID: "C14.R16", Props: []string{"C14"}, Engine: "E2",
+		Title:   "AcceptStream hands over every accepted stream: it returns what it received from the accept channel without looking at the stream (a stream that was already reset by the peer still holds the messages received before the reset; filtering it out loses them)",
+		MinInst: 1,
+		Run: func(c *RuleCtx) {
+			fn := c.Fn("Association.AcceptStream")
+			_, streamT := c.P.NamedStruct("Stream")
+			reads := ""
+			for _, g := range c.P.Region(fn) {
+				forEachInstrDeep(c.P, g, 1, func(in ssa.Instruction) {
+					if fa, ok := in.(*ssa.FieldAddr); ok && streamT != nil {
+						if f := fieldOf(fa.X.Type(), fa.Field); f != nil {
+							for i := 0; i < streamT.NumFields(); i++ {
+								if streamT.Field(i) == f {
+									reads = f.Name()
+								}
+							}
+						}
+					}
+				})
+			}
+			c.Check(reads == "", "accept-does-not-filter", c.P.Pos(fn.Pos()), "no Stream field is consulted", "AcceptStream looks at Stream."+reads+" before handing the stream over: a stream it filters out takes its unread messages with it")
+		}})
+
+	register(&Rule{ID: "C12.R15", Props: []string{"C12"}, Engine: "E1",
+		Title:   "the I-FORWARD-TSN entry limit keeps the chunk length representable: chunkHeaderSize + newCumulativeTSNLength + maxIForwardTSNStreams × iForwardTSNEntryLength ≤ 65535 (one entry more and the 16-bit Chunk Length wraps to 0)",
+		MinInst: 1,
+		Run: func(c *RuleCtx) {
+			get := func(n string) int64 {
+				k := c.P.Const(n)
+				if k == nil {
+					panic(unresolved{"const " + n})
+				}
+				v, _ := constantInt64(k)
+				return v
+			}
+			total := get("chunkHeaderSize") + get("newCumulativeTSNLength") + get("maxIForwardTSNStreams")*get("iForwardTSNEntryLength")
+			c.Check(total <= 65535, "entry-limit-fits-chunk-length", "", fmt.Sprintf("largest chunk %d bytes ≤ 65535", total), fmt.Sprintf("the largest I-FORWARD-TSN the limit admits is %d bytes: its 16-bit Chunk Length field wraps", total))
+			// and the next entry would not fit (the limit is the largest possible, not merely safe)
+			c.Check(total+get("iForwardTSNEntryLength") > 65535, "entry-limit-is-tight", "", "one more entry would not fit", "the entry limit is lower than what the chunk length can express")
 		}})
 }
 
